@@ -176,6 +176,25 @@ func (m *Manager) History() ([32]types.BlockID, error) {
 	for i := range history {
 		index, ok := m.store.BestIndex(histHeight(i))
 		if !ok {
+			// we don't hold the chain down to genesis (bootstrapped from a
+			// checkpoint): end the history with the lowest block we do hold,
+			// which plays the role genesis plays for a full node; otherwise a
+			// fork point between that block and the last sampled height can
+			// never be found
+			if i > 0 {
+				lo, hi := histHeight(i), histHeight(i-1) // BestIndex(hi) exists
+				for lo+1 < hi {
+					mid := lo + (hi-lo)/2
+					if _, ok := m.store.BestIndex(mid); ok {
+						hi = mid
+					} else {
+						lo = mid
+					}
+				}
+				if lowest, ok := m.store.BestIndex(hi); ok && lowest.ID != history[i-1] {
+					history[i] = lowest.ID
+				}
+			}
 			break
 		}
 		history[i] = index.ID
